@@ -1,6 +1,6 @@
 (* C19 Equality, hashing and ordering agree with the canonical string *)
 Load "coq/props/Hdr".
-From PM Require Import Inj Inj2 Order Assemble Exec.
+From PM Require Import Inj Inj2 Order Assemble Exec Final.
 Lemma src_rt : rt_ok cfg. Proof. apply conds_rt_ok. vm_compute. reflexivity. Qed.
 Lemma src_tbl : tbl_ok cfg. Proof. apply conds_tbl_ok. vm_compute. reflexivity. Qed.
 Lemma src_cfg_ok : cfg_ok cfg. Proof. exact (rt_cfg _ src_rt). Qed.
@@ -21,3 +21,10 @@ Print Assumptions C19_invariant_gives_valid_keys.
 Theorem C19_total_order : total_cmp cmp_purl.
 Proof. exact C19_ord. Qed.
 Print Assumptions C19_total_order.
+(* the comparison functions executed by the correspondence check (derived Ord of GenericPurl<String> and of Purl) are total orders, Equal iff equal *)
+Theorem C19_total_order_generic : total_cmp cmp_g.
+Proof. exact cmp_g_total. Qed.
+Print Assumptions C19_total_order_generic.
+Theorem C19_total_order_typed : total_cmp cmp_t.
+Proof. exact cmp_t_total. Qed.
+Print Assumptions C19_total_order_typed.
